@@ -24,7 +24,7 @@ EXTENDS TraceBase, IEEE
 VARIABLES l, st      \* st: the verified rules, a function n -> [x, w]
 
 ConvTol == "1e-6"    \* ladder converged
-ModelTol == "2e-3"   \* accuracy of the models' internal Gauss-76 / adaptive rules at q*size <= ~10 (calibrated, see DESIGN)
+ModelTol == "2e-5"   \* 20 x ConvTol; observed agreement on the unchanged tree is <= 1e-12 wherever the ladder has converged
 
 \* Legendre P_n(x) and P_{n-1}(x) by the recurrence (k+1) P_{k+1} = (2k+1) x P_k - k P_{k-1}
 RECURSIVE Leg(_, _, _, _, _)
@@ -47,32 +47,48 @@ RuleOK(e) ==
     /\ FNear(FSum(e.w), "2.0", "1e-13", "0.0")
 
 \* one ladder level: lev = [n, m, pts[i][k] = [q: <<qa,qb,qc>>, F2: [per q value]]]
-VecOK(lev, rule, q, j) ==
+\* phi nodes: periodic trapezoid (phikind = "trap") or, for the level that imitates the models' own
+\* nested Gauss loops, Gauss-Legendre in phi on [0, 2 pi] (phikind = "gl", rule with m nodes)
+PhiOf(lev, rules, k) ==
+    IF lev.phikind = "gl" THEN FMul(FPi, FAdd("1.0", rules[lev.m].x[k]))
+    ELSE FDiv(FMul(FMul("2.0", FPi), FFromInt(k - 1)), FFromInt(lev.m))
+VecOK(lev, rules, q, j) ==
+    LET rule == rules[lev.n] IN
     \A i \in 1..lev.n : \A k \in 1..lev.m :
         LET x == rule.x[i]
             s == FSqrt(FSub("1.0", FMul(x, x)))
-            ph == FDiv(FMul(FMul("2.0", FPi), FFromInt(k - 1)), FFromInt(lev.m))
+            ph == PhiOf(lev, rules, k)
             want == <<FMul(q, FMul(s, FCos(ph))), FMul(q, FMul(s, FSin(ph))), FMul(q, x)>>
             got == lev.pts[i][k].q[j]
         IN \A c \in 1..3 : FNear(got[c], want[c], "0.0", FMul("1e-12", q))
-Estimate(lev, rule, j) ==
-    \* (1/4pi) integral = (1/2) sum_i w_i (1/m) sum_k F2
+Estimate(lev, rules, j) ==
+    \* (1/4pi) integral = (1/2) sum_i w_i (mean over phi of F2)
+    LET rule == rules[lev.n] IN
     FMul("0.5", FDot(rule.w, [i \in 1..lev.n |->
-        FDiv(FSum([k \in 1..lev.m |-> lev.pts[i][k].F2[j]]), FFromInt(lev.m))]))
+        IF lev.phikind = "gl"
+        THEN FMul("0.5", FDot(rules[lev.m].w, [k \in 1..lev.m |-> lev.pts[i][k].F2[j]]))
+        ELSE FDiv(FSum([k \in 1..lev.m |-> lev.pts[i][k].F2[j]]), FFromInt(lev.m))]))
 
 ApplyAvg(rules, e) ==
     LET nq == Len(e.q)
-        A1 == [j \in 1..nq |-> Estimate(e.lev1, rules[e.lev1.n], j)]
-        A2 == [j \in 1..nq |-> Estimate(e.lev2, rules[e.lev2.n], j)]
-        A3 == [j \in 1..nq |-> Estimate(e.lev3, rules[e.lev3.n], j)]
+        A1 == [j \in 1..nq |-> Estimate(e.lev1, rules, j)]
+        A2 == [j \in 1..nq |-> Estimate(e.lev2, rules, j)]
+        A3 == [j \in 1..nq |-> Estimate(e.lev3, rules, j)]
+        A0 == [j \in 1..nq |-> Estimate(e.lev0, rules, j)]
         \* three rules with different node sets (24, 37 - which has a node at x = 0 - and 48 points) agree
+        \* and so does a nested 20 x 20 Gauss-Legendre rule (phi by Gauss too, like the models' own nested
+        \* loops; gauss20 is the smallest rule they use): an integrand that rule resolves is resolved by
+        \* the model's own 20/76/150-node loops
         conv == FVecNear(A1, A2, ConvTol, "1e-300") /\ FVecNear(A3, A2, ConvTol, "1e-300")
+                /\ FVecNear(A0, A2, ConvTol, "1e-300")
         \* I = scale <F^2> / V + background with scale 1, background 0
         Iwant == FVecDiv(A2, e.V)
     IN IF e.raised # "" THEN <<"raised", e.raised>>
-       ELSE IF e.lev1.n \notin DOMAIN rules \/ e.lev2.n \notin DOMAIN rules \/ e.lev3.n \notin DOMAIN rules THEN <<"harness-unverified-rule", "">>
-       ELSE IF \E j \in 1..nq : ~VecOK(e.lev1, rules[e.lev1.n], e.q[j], j) \/ ~VecOK(e.lev2, rules[e.lev2.n], e.q[j], j)
-                                  \/ ~VecOK(e.lev3, rules[e.lev3.n], e.q[j], j)
+       ELSE IF e.lev1.n \notin DOMAIN rules \/ e.lev2.n \notin DOMAIN rules \/ e.lev3.n \notin DOMAIN rules
+               \/ e.lev0.n \notin DOMAIN rules THEN <<"harness-unverified-rule", "">>
+       ELSE IF \E j \in 1..nq : ~VecOK(e.lev1, rules, e.q[j], j) \/ ~VecOK(e.lev2, rules, e.q[j], j)
+                                  \/ ~VecOK(e.lev3, rules, e.q[j], j)
+                                  \/ ~VecOK(e.lev0, rules, e.q[j], j)
             THEN <<"harness-directions", "">>
        ELSE IF ~conv THEN <<>>          \* premise not met: counted by the harness (flag printed below)
        ELSE IF ~FVecNear(e.F2, A2, ModelTol, "1e-300") THEN <<"F2-is-not-the-spherical-average", ToString(<<"average", A2, "model", e.F2>>)>>
@@ -80,10 +96,12 @@ ApplyAvg(rules, e) ==
        ELSE <<>>
 Converged(rules, e) ==
     LET nq == Len(e.q) IN
-    /\ FVecNear([j \in 1..nq |-> Estimate(e.lev1, rules[e.lev1.n], j)],
-                [j \in 1..nq |-> Estimate(e.lev2, rules[e.lev2.n], j)], ConvTol, "1e-300")
-    /\ FVecNear([j \in 1..nq |-> Estimate(e.lev3, rules[e.lev3.n], j)],
-                [j \in 1..nq |-> Estimate(e.lev2, rules[e.lev2.n], j)], ConvTol, "1e-300")
+    /\ FVecNear([j \in 1..nq |-> Estimate(e.lev1, rules, j)],
+                [j \in 1..nq |-> Estimate(e.lev2, rules, j)], ConvTol, "1e-300")
+    /\ FVecNear([j \in 1..nq |-> Estimate(e.lev3, rules, j)],
+                [j \in 1..nq |-> Estimate(e.lev2, rules, j)], ConvTol, "1e-300")
+    /\ FVecNear([j \in 1..nq |-> Estimate(e.lev0, rules, j)],
+                [j \in 1..nq |-> Estimate(e.lev2, rules, j)], ConvTol, "1e-300")
 
 TInit == l = 1 /\ st = <<>> /\ TLCSet(1, 0) /\ TLCSet(2, 0)
 TNext ==
